@@ -5,9 +5,15 @@ import json, glob, os, shutil, sys
 out = '/verif/seeded'
 os.makedirs(out, exist_ok=True)
 pat = sys.argv[1] if len(sys.argv) > 1 else '/tmp/seed-out-C*/[0-9]'
+if pat == '--local':
+    # merge result.json files that tools/seedtest.py left inside /verif/seeded/<id>/ itself
+    pat = '/verif/seeded/C*-[0-9]*'
 for d in sorted(glob.glob(pat)):
-    prop = d.split('seed-out-')[1].split('/')[0]; i = d.rstrip('/').split('/')[-1]
-    name = '%s-%s' % (prop, i)
+    if d.startswith('/verif/seeded/'):
+        name = os.path.basename(d.rstrip('/')); prop = name.split('-')[0]
+    else:
+        prop = d.split('seed-out-')[1].split('/')[0]; i = d.rstrip('/').split('/')[-1]
+        name = '%s-%s' % (prop, i)
     if not os.path.exists(os.path.join(d, 'meta.json')): continue
     dst = os.path.join(out, name); os.makedirs(dst, exist_ok=True)
     meta = json.load(open(os.path.join(d, 'meta.json')))
@@ -15,7 +21,7 @@ for d in sorted(glob.glob(pat)):
     if os.path.exists(os.path.join(dst, 'meta.json')):
         old = json.load(open(os.path.join(dst, 'meta.json')))
     for f in os.listdir(d):
-        if f == 'result.json' or os.path.isdir(os.path.join(d, f)): continue
+        if f == 'result.json' or os.path.isdir(os.path.join(d, f)) or os.path.abspath(d) == os.path.abspath(dst): continue
         shutil.copy(os.path.join(d, f), dst)
     rp = os.path.join(d, 'result.json')
     res = json.load(open(rp)) if os.path.exists(rp) else None
